@@ -66,7 +66,6 @@ DEFAULT_PROFILE = {
     'final': True,             # final :: name
     'operator_iface': True,    # interface operator(.op.)
     'cond_string': True,       # one-line IF whose condition contains a string with parentheses and keywords
-    'char_star_fun': True,     # character(len=*) function
     'tbp_array_parent': True,  # call arr(i)%go(x)
     'proc_list': True,         # module procedure a, b  with '::'
     'typed_prefix': True,      # typed function headers  integer function f(x)
@@ -77,7 +76,7 @@ DEFAULT_PROFILE = {
     'internal_before_module': True,  # module procedure with internal procedures in a module that is followed by another module
     'iface_fun_body': True,    # interface body of a FUNCTION whose result type is declared in its specification part
 }
-TRIGGER_FLAGS = ['kw_lhs', 'use_nature', 'bare_end', 'deferred', 'final', 'cond_string', 'char_star_fun', 'free_iface_modproc',
+TRIGGER_FLAGS = ['kw_lhs', 'use_nature', 'bare_end', 'deferred', 'final', 'cond_string', 'free_iface_modproc',
                  'pass_arg', 'extends_spaced', 'mod_type_string', 'internal_before_module', 'iface_fun_body']
 
 
